@@ -116,7 +116,7 @@ func c15Ctr(id, pod string, milli int64, guaranteed bool) *api.Container {
 		Cpu:    &api.LinuxCPU{Shares: &api.OptionalUInt64{Value: shares}},
 		Memory: &api.LinuxMemory{},
 	}
-	adj := int64(900)
+	adj := int64(998)
 	if guaranteed {
 		res.Cpu.Quota = &api.OptionalInt64{Value: milli * 100}
 		res.Cpu.Period = &api.OptionalUInt64{Value: 100000}
